@@ -72,7 +72,7 @@ def part_des(chk, quick, rnd):
         add(kind="shrink", key=rb(8))
     for b in range(0, 56, 5 if quick else 1):
         add(kind="expand", key=[(1 << (7 - (b % 8))) if b // 8 == j else 0 for j in range(7)])
-    wd = VERIF / "out" / "work" / "C11_des_in"
+    wd = tlc.WORK / "C11_des_in"
     wd.mkdir(parents=True, exist_ok=True)
     (wd / "cases.json").write_text(json.dumps(cases))
     res = tlc.run("MC_Des", "INIT Init\nNEXT Next\nINVARIANT InvExpand\n", name="C11_des", workers=16, env={"TRACE_FILE": str(wd / "cases.json")}, coverage=False, timeout=3000)
@@ -180,7 +180,7 @@ def part_blowfish(chk, quick, rnd):
         salt = "".join(rnd.choice(BC64) for _ in range(21)) + rnd.choice(".Oeu")
         cases.append(dict(kind="bcrypt", cost=cost, salt=list(bc64dec(salt)[:16]), pw=list(pw)))
         meta[len(cases)] = (cost, pw, salt)
-    wd = VERIF / "out" / "work" / "C11_blowfish_in"
+    wd = tlc.WORK / "C11_blowfish_in"
     wd.mkdir(parents=True, exist_ok=True)
     (wd / "input.json").write_text(json.dumps(dict(P=[[w >> 16, w & 0xFFFF] for w in ws[:18]], S=[[w >> 16, w & 0xFFFF] for w in ws[18:]], cases=cases)))
     r = tlc.run("MC_Blowfish", "INIT Init\nNEXT Next\n", name="C11_blowfish", workers=16, env={"TRACE_FILE": str(wd / "input.json")}, coverage=False, timeout=5000)
@@ -262,7 +262,7 @@ def part_bcrypt(chk, quick, rnd):
         evs.append(dict(f="bcrypt-core", k=k, v=raw_bcrypt(pw, "2b", salt.encode(), 4).decode(), src="passlib/long"))
         evs.append(dict(f="bcrypt-core", k=k, v=cbcrypt.hashpw(pw[:72], f"$2b$04${salt}".encode()).decode()[29:], src="bcrypt-C"))
         chk.count(("bcrypt-core", ln, 4))
-    wd = VERIF / "out" / "work" / "C11_bcrypt_in"
+    wd = tlc.WORK / "C11_bcrypt_in"
     wd.mkdir(parents=True, exist_ok=True)
     (wd / "events.json").write_text(json.dumps(evs))
     r = tlc.run("Trace_Func", "INIT Init\nNEXT Next\nINVARIANT SingleValued\n", name="C11_bcrypt", workers=1, env={"TRACE_FILE": str(wd / "events.json")}, coverage=False, timeout=1800)
